@@ -5,8 +5,15 @@ package main
 
 import (
 	"bytes"
+	"errors"
 	"fmt"
+	"io"
+	"io/ioutil"
+	"net"
+	"net/url"
+	"strconv"
 	"strings"
+	"sync"
 	"time"
 
 	"verif/harness/hv"
@@ -26,10 +33,208 @@ func pairs(v hv.Val) (names, values []string) {
 	return
 }
 
+// ---------------- transport level (input tag 4) ----------------
+
+// fakeBackend records every byte each connection receives and answers request heads according to the policy of
+// the step currently being executed (steps run strictly one after the other).
+type countConn struct {
+	net.Conn
+	mu *sync.Mutex
+	n  *int
+}
+
+func (c countConn) Write(p []byte) (int, error) {
+	n, err := c.Conn.Write(p)
+	c.mu.Lock()
+	*c.n += n
+	c.mu.Unlock()
+	return n, err
+}
+
+type fakeBackend struct {
+	mu    sync.Mutex
+	logs  []*bytes.Buffer
+	sent  []*int // bytes the transport managed to write per connection
+	conns []net.Conn
+	early bool
+	close bool
+}
+
+func (b *fakeBackend) dial(network, addr string) (net.Conn, error) {
+	c, srv := net.Pipe()
+	buf := &bytes.Buffer{}
+	b.mu.Lock()
+	cnt := new(int)
+	b.logs = append(b.logs, buf)
+	b.sent = append(b.sent, cnt)
+	b.conns = append(b.conns, srv)
+	b.mu.Unlock()
+	go b.serve(srv, buf)
+	return countConn{c, &b.mu, cnt}, nil
+}
+
+func (b *fakeBackend) serve(c net.Conn, buf *bytes.Buffer) {
+	pos := 0      // start of the request head being looked for
+	need := -1    // >= 0: a head was seen, its body ends at this offset
+	answered := false
+	tmp := make([]byte, 4096)
+	for {
+		n, err := c.Read(tmp)
+		b.mu.Lock()
+		buf.Write(tmp[:n])
+		data := append([]byte(nil), buf.Bytes()...)
+		early, cl := b.early, b.close
+		b.mu.Unlock()
+		for {
+			if need < 0 {
+				i := bytes.Index(data[pos:], []byte("\r\n\r\n"))
+				if i < 0 {
+					break
+				}
+				head := string(data[pos : pos+i+4])
+				bodyLen := 0
+				if j := strings.Index(head, "Content-Length: "); j >= 0 {
+					k := strings.Index(head[j:], "\r\n")
+					bodyLen, _ = strconv.Atoi(head[j+16 : j+k])
+				}
+				need = pos + i + 4 + bodyLen
+				answered = false
+			}
+			if !answered && (early || len(data) >= need) {
+				resp := "HTTP/1.1 200 OK\r\nContent-Length: 2\r\n"
+				if cl {
+					resp += "Connection: close\r\n"
+				}
+				go io.WriteString(c, resp+"\r\nok")
+				answered = true
+			}
+			if len(data) < need {
+				break
+			}
+			pos, need = need, -1
+		}
+		if err != nil {
+			return
+		}
+	}
+}
+
+func (b *fakeBackend) streamLen(k int) int {
+	b.mu.Lock()
+	defer b.mu.Unlock()
+	if k < 0 || k >= len(b.logs) {
+		return 0
+	}
+	return b.logs[k].Len()
+}
+
+// ctlBody delivers its data at once and then blocks until released; then it ends with EOF or an error.
+type ctlBody struct {
+	data    []byte
+	release chan struct{}
+	err     error
+}
+
+func (b *ctlBody) Read(p []byte) (int, error) {
+	if len(b.data) > 0 {
+		n := copy(p, b.data)
+		b.data = b.data[n:]
+		return n, nil
+	}
+	<-b.release
+	return 0, b.err
+}
+func (b *ctlBody) Close() error { return nil }
+
+func waitFor(cond func() bool, d time.Duration) bool {
+	deadline := time.Now().Add(d)
+	for !cond() {
+		if time.Now().After(deadline) {
+			return false
+		}
+		time.Sleep(100 * time.Microsecond)
+	}
+	return true
+}
+
+func implTransport(steps hv.L) hv.Val {
+	be := &fakeBackend{}
+	tr := &bfe_http.Transport{Dial: be.dial, DisableCompression: true, MaxIdleConnsPerHost: 2, ResponseHeaderTimeout: 2 * time.Second}
+	for _, sv := range steps {
+		st := hv.AsList(sv)
+		method, path := hv.AsStr(st[0]), hv.AsStr(st[1])
+		declared := int(hv.AsInt(st[2]))
+		delivered := hv.AsBytes(st[3])
+		early, respClose, bodyErr := hv.AsBool(st[4]), hv.AsBool(st[5]), hv.AsBool(st[6])
+		be.mu.Lock()
+		be.early, be.close = early, respClose
+		be.mu.Unlock()
+		req := &bfe_http.Request{Method: method, URL: &url.URL{Scheme: "http", Host: "backend", Path: path}, Host: "backend",
+			Header: bfe_http.Header{}, Proto: "HTTP/1.1", ProtoMajor: 1, ProtoMinor: 1,
+			ContentLength: int64(declared), State: &bfe_http.RequestState{}}
+		var body *ctlBody
+		if declared > 0 {
+			body = &ctlBody{data: append([]byte(nil), delivered...), release: make(chan struct{}), err: io.EOF}
+			if bodyErr {
+				body.err = errors.New("client went away")
+			}
+			if !early {
+				close(body.release)
+			}
+			req.Body = body
+		}
+		ok := len(delivered) == declared && !bodyErr
+		nconn := func() int { be.mu.Lock(); defer be.mu.Unlock(); return len(be.logs) }
+		resp, err := tr.RoundTrip(req)
+		k := nconn() - 1 // the connection just used is the last one dialled or the single idle one (also the last)
+		if err == nil {
+			ioutil.ReadAll(resp.Body)
+			resp.Body.Close()
+		}
+		if early && body != nil {
+			if !respClose && err == nil {
+				waitFor(func() bool { idle, _ := bfe_http.VerifC25IdleConns(tr); return idle >= 1 }, 2*time.Second)
+			}
+			before := be.streamLen(k)
+			close(body.release)
+			if ok && !respClose {
+				waitFor(func() bool { return be.streamLen(k) >= before+declared }, 2*time.Second)
+			} else {
+				// the write fails: the connection must stop being usable
+				waitFor(func() bool { _, usable := bfe_http.VerifC25IdleConns(tr); return usable == 0 }, 1500*time.Millisecond)
+			}
+		} else if ok && !respClose && err == nil {
+			waitFor(func() bool { idle, _ := bfe_http.VerifC25IdleConns(tr); return idle >= 1 }, 2*time.Second)
+		}
+	}
+	tr.CloseIdleConnections()
+	// every byte the transport wrote has been taken by the backend's Read; wait until it is recorded too
+	waitFor(func() bool {
+		be.mu.Lock()
+		defer be.mu.Unlock()
+		for i, l := range be.logs {
+			if l.Len() < *be.sent[i] {
+				return false
+			}
+		}
+		return true
+	}, 2*time.Second)
+	be.mu.Lock()
+	out := hv.L{}
+	for i, l := range be.logs {
+		out = append(out, hv.B(append([]byte(nil), l.Bytes()...)))
+		be.conns[i].Close()
+	}
+	be.mu.Unlock()
+	return out
+}
+
 func impl(in hv.Val) hv.Val {
 	l := hv.AsList(in)
 	var req *bfe_http.Request
 	switch hv.AsInt(l[0]) {
+	case 4:
+		return implTransport(hv.AsList(l[1]))
 	case 1:
 		br := bfe_bufio.NewReader(bytes.NewReader(hv.AsBytes(l[1])))
 		r, err := bfe_http.ReadRequest(br, 65536)
@@ -249,6 +454,37 @@ func genFields(r *hv.Rng, spdy bool) (string, hv.L) {
 	return class, fs
 }
 
+// 2-4 requests through one Transport: bodies complete / short / over-long / failing, backend answering
+// before or after the body, keep-alive or Connection: close responses
+func genTransport(r *hv.Rng) (string, hv.Val) {
+	n := r.Range(2, 4)
+	steps := hv.L{}
+	class := "tr"
+	for k := 0; k < n; k++ {
+		declared := 0
+		var delivered []byte
+		if r.Chance(2, 3) {
+			declared = r.Range(1, 30)
+			delivered = []byte(alnum(r, declared))
+			switch r.Intn(6) {
+			case 0, 1: // short (incl. nothing at all)
+				delivered = delivered[:r.Intn(declared)]
+				class = "tr-short"
+			case 2:
+				delivered = append(delivered, alnum(r, r.Range(1, 5))...)
+				class = "tr-long"
+			}
+		}
+		bodyErr := declared > 0 && r.Chance(1, 6)
+		if bodyErr {
+			class = "tr-err"
+		}
+		steps = append(steps, hv.L{hv.S(r.Pick([]string{"POST", "PUT", "GET"})), hv.S(fmt.Sprintf("/r%d", k)), hv.I(declared), hv.B(delivered),
+			hv.Bool(r.Chance(1, 2)), hv.Bool(r.Chance(1, 6)), hv.Bool(bodyErr)})
+	}
+	return class, hv.L{hv.I(4), steps}
+}
+
 func gen(r *hv.Rng, i int, tier string) (string, hv.Val) {
 	// requests with a body on HTTP/2 / SPDY: content-length absent (re-framed as one chunk), equal to the body
 	// length (incl. 0 and empty body), HEAD with body (rejected), occasionally a mismatching value (not modelled)
@@ -274,6 +510,9 @@ func gen(r *hv.Rng, i int, tier string) (string, hv.Val) {
 		}
 		return label + "body-" + c, hv.L{hv.I(tag), fs, hv.S(body)}
 	}
+	if i%25 == 24 {
+		return genTransport(r)
+	}
 	switch i % 3 {
 	case 0:
 		return genH1(r)
@@ -285,5 +524,5 @@ func gen(r *hv.Rng, i int, tier string) (string, hv.Val) {
 }
 
 func main() {
-	hv.Main(&hv.Spec{Prop: "C25", Gen: gen, Impl: impl, NQuick: 6000, NThorough: 300000, Deadline: 2 * time.Second})
+	hv.Main(&hv.Spec{Prop: "C25", Gen: gen, Impl: impl, NQuick: 6000, NThorough: 300000, Deadline: 20 * time.Second})
 }
